@@ -211,15 +211,121 @@ def classify(h, out, timed_out, wall, log):
     return res
 
 
+def load_hints():
+    try:
+        return json.load(open(os.path.join(VERIF, "contracts", "timing_hints.json")))
+    except Exception:
+        return {}
+
+
+def plan_batches(hs, jobs, default_to):
+    """Longest-processing-time-first partition into at most `jobs` batches per solver.  One `cargo kani` invocation
+    per batch: cargo's build-directory lock serialises the (per harness-set) compilation of h2, so 130 single-harness
+    invocations spend ~9 min queueing for it; 16 batches spend ~1.5 min."""
+    hints = load_hints()
+    by_solver = {}
+    for h in hs:
+        by_solver.setdefault(h.get("solver") or SOLVER, []).append(h)
+    total = sum(hints.get(h["id"], 20.0) for h in hs) or 1.0
+    batches = []
+    for solver, group in by_solver.items():
+        w = sum(hints.get(h["id"], 20.0) for h in group)
+        k = max(1, min(len(group), int(round(jobs * w / total)) or 1))
+        bins = [{"solver": solver, "hs": [], "w": 0.0} for _ in range(k)]
+        for h in sorted(group, key=lambda h: -hints.get(h["id"], 20.0)):
+            bn = min(bins, key=lambda x: x["w"])
+            bn["hs"].append(h)
+            bn["w"] += hints.get(h["id"], 20.0) + 3.0
+        batches += [bn for bn in bins if bn["hs"]]
+    for bn in batches:
+        bn["timeout"] = max(h["timeout"] or default_to for h in bn["hs"])
+    batches.sort(key=lambda bn: -bn["w"])  # the heaviest batch gets the build lock first
+    return batches
+
+
+SECTION_RE = re.compile(r"^Checking harness (\S+?)\.\.\.\s*$")
+
+
+def run_batch(scratch, bn, mem_gb, logdir, k):
+    """One cargo-kani process verifying the harnesses of the batch one after the other (regular output, so every check
+    is listed).  Returns the classified result of each harness."""
+    hs = bn["hs"]
+    cmd = ["cargo", "kani"] + KANI_FLAGS + ["--exact", "--solver", bn["solver"], "-Z", "unstable-options",
+                                            "--harness-timeout", "%ds" % bn["timeout"]]
+    for h in hs:
+        cmd += ["--harness", h["path"]]
+    t0 = time.time()
+    limit = sum((h["timeout"] or bn["timeout"]) for h in hs) + 900
+    sections, order, cur, pre = {}, [], None, []
+    stamps = {}
+    killed = False
+    try:
+        p = subprocess.Popen(cmd, cwd=scratch, env=ENV, stdout=subprocess.PIPE, stderr=subprocess.STDOUT,
+                             text=True, preexec_fn=_limits(mem_gb))
+        import threading
+        timer = threading.Timer(limit, lambda: os.killpg(p.pid, signal.SIGKILL))
+        timer.start()
+        for line in p.stdout:
+            m = SECTION_RE.match(line)
+            if m:
+                if cur is not None:
+                    stamps[cur][1] = time.time()
+                cur = m.group(1)
+                order.append(cur)
+                sections[cur] = []
+                stamps[cur] = [time.time(), None]
+            if cur is None:
+                pre.append(line)
+            else:
+                if line.startswith("Manual Harness Summary") or line.startswith("Complete - "):
+                    stamps[cur][1] = stamps[cur][1] or time.time()
+                    cur = None
+                    pre.append(line)
+                    continue
+                sections[cur].append(line)
+        p.wait()
+        killed = not timer.is_alive() and p.returncode == -signal.SIGKILL
+        timer.cancel()
+    except Exception as e:  # pragma: no cover
+        pre.append("driver exception: %r\n" % e)
+    end = time.time()
+    if cur is not None and stamps[cur][1] is None:
+        stamps[cur][1] = end
+    with open(os.path.join(logdir, "batch%02d.log" % k), "w") as f:
+        f.write("".join(pre))
+        f.write("\n# harnesses: " + " ".join(h["id"] for h in hs) + "\n")
+    # compile diagnostics (errors only) are shared by every harness of the batch
+    pre_txt = "".join(pre)
+    compile_failed = "error: could not compile" in pre_txt or "error[E" in pre_txt or "internal compiler error" in pre_txt
+    results = []
+    for h in hs:
+        sec = sections.get(h["path"])
+        log = os.path.join(logdir, h["id"] + ".log")
+        if sec is None:
+            out = pre_txt if compile_failed else ("harness was not run by cargo kani (batch ended early%s)\n" % (
+                ", killed by the driver after %ds" % limit if killed else "")) + pre_txt[-3000:]
+            wall, timed_out = end - t0, killed
+        else:
+            out = "".join(sec)
+            st = stamps[h["path"]]
+            wall = (st[1] or end) - st[0]
+            timed_out = "CBMC timed out" in out or (killed and h["path"] == order[-1])
+        with open(log, "w") as f:
+            f.write(out)
+        results.append(classify(h, out, timed_out, wall, log))
+    return results
+
+
 def run_many(scratch, hs, tier, jobs, logdir):
     os.makedirs(logdir, exist_ok=True)
     default_to = 150 if tier == "quick" else 1800
     mem = 12 if tier == "quick" else 24
+    batches = plan_batches(hs, jobs, default_to)
     results = []
-    with concurrent.futures.ThreadPoolExecutor(max_workers=jobs) as ex:
-        futs = {ex.submit(run_harness, scratch, h, h["timeout"] or default_to, mem, logdir): h for h in hs}
+    with concurrent.futures.ThreadPoolExecutor(max_workers=max(1, len(batches))) as ex:
+        futs = [ex.submit(run_batch, scratch, bn, mem, logdir, k) for k, bn in enumerate(batches)]
         for f in concurrent.futures.as_completed(futs):
-            results.append(f.result())
+            results += f.result()
     results.sort(key=lambda r: r["id"])
     return results
 
